@@ -532,8 +532,13 @@ func (r *PipelineRunner) startJobsOnWaitList(pipeline string) {
 		}
 
 		waitList = waitList[1:]
+		// Write back the wait list before starting the job: if the job cannot be started, startJob itself
+		// processes the wait list, so it must not see (and the loop must not restore) a stale list
+		r.waitListByPipeline[pipeline] = waitList
 
 		r.startJob(queuedJob)
+
+		waitList = r.waitListByPipeline[pipeline]
 
 		log.
 			WithField("component", "runner").
